@@ -74,6 +74,92 @@ def run(ctx, prop, focus, oracle, n_quick, n_thorough, rule, nontrivial=None, wa
     return results
 
 
+def indexed_case(rng, extra=()):
+    """A command line on which cutadapt builds its adapter *index* (default mode, no --no-index): 2-5 anchored 5' or 3' adapters
+    without wildcards on one side (lengths 6-14, equal or mixed; some ;noindels, some with their own ;e=), reads that begin/end with a
+    copy of one adapter (0-2 edits, sometimes an N inside the copy, sometimes a read shorter than the adapter).
+    `extra`: option tokens appended (action, times, info file, ...)."""
+    k = rng.randint(2, 5)
+    front = rng.random() < 0.6
+    equal = rng.random() < 0.5
+    base_len = rng.randint(6, 12)
+    seqs = []
+    while len(seqs) < k:
+        ln = base_len if equal else rng.randint(6, 14)
+        if seqs and rng.random() < 0.3:   # a near-duplicate of an earlier adapter
+            t = list(rng.choice(seqs))
+            i = rng.randrange(len(t))
+            t[i] = rng.choice([c for c in "ACGT" if c != t[i]])
+            t = "".join(t)
+        else:
+            t = "".join(rng.choice("ACGT") for _ in range(ln))
+        if t not in seqs:
+            seqs.append(t)
+    glob_noindels = rng.random() < 0.3
+    argv = []
+    for i, t in enumerate(seqs):
+        par = ""
+        if rng.random() < 0.3:
+            par += ";e=" + rng.choice(["0", "0.1", "0.2", "1", "2"])
+        if not glob_noindels and rng.random() < 0.2:
+            par += ";noindels"
+        argv += ["-g" if front else "-a", f"a{i}=" + ("^" + t if front else t + "$") + par]
+    if glob_noindels:
+        argv.append("--no-indels")
+    if rng.random() < 0.5:
+        argv += ["-e", rng.choice(["0.1", "0.15", "0.2"])]
+    argv += list(extra)
+    if "-o" not in argv:
+        argv += ["-o", "{dir}/o1.fastq"]
+    reads = []
+    for i in range(rng.randint(3, 8)):
+        body = "".join(rng.choice("ACGT") for _ in range(rng.randint(0, 25)))
+        x = rng.random()
+        if x < 0.8:
+            a = list(rng.choice(seqs))
+            for _ in range(rng.choice([0, 0, 1, 1, 2])):
+                j = rng.randrange(len(a)) if a else 0
+                y = rng.random()
+                if not a:
+                    break
+                if y < 0.5:
+                    a[j] = rng.choice("ACGT")
+                elif y < 0.7:
+                    a[j] = "N"
+                elif y < 0.85:
+                    del a[j]
+                else:
+                    a.insert(j, rng.choice("ACGT"))
+            a = "".join(a)
+            if rng.random() < 0.1:
+                a = a[:rng.randint(1, len(a))] if front else a[-rng.randint(1, len(a)):]
+                body = ""
+            s_ = a + body if front else body + a
+        else:
+            s_ = body
+        if rng.random() < 0.1:
+            s_ = s_.lower()
+        q = "".join(chr(33 + rng.choice([2, 10, 20, 30, 40])) for _ in s_)
+        reads.append((f"r{i} 1:N:0:1", s_, q))
+    return dict(argv=argv, paired=False, reads1=reads, reads2=None, with_qual=True, interleaved_in=False, indexed=True,
+                adapter_names=[f"a{i}" for i in range(k)])
+
+
+def indexed_sweep(ctx, oracle, n_quick, n_thorough, extras, prep=None):
+    """Oracle sweep over runs that use the adapter index (the model side of the pipeline correspondence is index-free, C08 models the
+    index itself): real runs only, judged by the property oracle. `extras(rng)` returns option tokens to append."""
+    cases = [indexed_case(ctx.rng, extras(ctx.rng)) for _ in range(ctx.scale(n_quick, n_thorough))]
+    for case in cases:
+        if prep:
+            prep(case)
+        res, real = pipe.run_real(case)
+        ctx.count("indexed-run:" + real.get("error", "ok"))
+        if "error" not in real and real.get("with_adapters1", 0) > 0:
+            ctx.nontriv("indexed:" + json.dumps([case["argv"], case["reads1"]]))
+        oracle(ctx, case, res, real)
+    return cases
+
+
 def case_input(case):
     return dict(argv=case["argv"], reads1=case["reads1"], reads2=case["reads2"])
 
